@@ -103,6 +103,9 @@ pub fn eval(expr: Node) -> Result<f64, Box<dyn error::Error>> {
                         #[cfg(feature = "verif_hooks")]
                         crate::verif_hooks::tick_loop();
                         factorial_result *= i as f64;
+                        if factorial_result.is_infinite() {
+                            break;
+                        }
                     }
                     Ok(factorial_result)
                 }
